@@ -58,6 +58,38 @@ theorem hostExecute_none_due {s : State} (h : HInv s) (ho : (hostExecute s).outO
   have h2 := this e he
   rw [← hm]; exact h2
 
+/-- a top-level `ScriptExecuteInternal` (no current thread, empty native stack, sound dirty flag) ends with
+    `ExecuteRunning`: nothing is due afterwards — a `wait 0` resumes inside the same host call -/
+theorem sei_none_due (fuel : Nat) (s : State) (t : Nat) (hc : s.cur = none) (hd : s.depth = 0) (htd : TD s.timer)
+    (ho : (scriptExecuteInternal (fuel + 1 + 1) s t).outOfFuel = false) :
+    ∀ e ∈ (scriptExecuteInternal (fuel + 1 + 1) s t).timer.elems,
+      (scriptExecuteInternal (fuel + 1 + 1) s t).timer.mtime < e.2 := by
+  rw [scriptExecuteInternal_succ] at ho ⊢
+  have h1 := (hrAll (fuel + 1)).stp { s with cur := some t } t
+  have h2 := execIfAlive_hr (hrAll (fuel + 1)).ev (stop (fuel + 1) { s with cur := some t } t) t
+  have h3 := restoreCur_ht (execIfAlive (execVM (fuel + 1)) (stop (fuel + 1) { s with cur := some t } t) t) s.cur
+  apply executeRunning_none_due fuel _ ?_ ?_ ?_ ho
+  · unfold restoreCur; rw [hc]; rfl
+  · show (execIfAlive (execVM (fuel + 1)) (stop (fuel + 1) { s with cur := some t } t) t).depth = 0
+    rw [h2.depth, h1.depth]; exact hd
+  · exact h3.td (h2.ht.td (h1.ht.td htd))
+
+theorem callFinish_timer (s : State) (c : Nat) : (callFinish s c).timer = s.timer := by
+  unfold callFinish; split <;> rfl
+
+theorem callFinish_oof (s : State) (c : Nat) : (callFinish s c).outOfFuel = s.outOfFuel := by
+  unfold callFinish; split <;> rfl
+
+theorem hostCall_none_due {s : State} (h : HInv s) (label : Nat) (args : List V) (hl : label < s.prog.length)
+    (ho : (hostCall s label args).1.outOfFuel = false) :
+    ∀ e ∈ (hostCall s label args).1.timer.elems, (hostCall s label args).1.timer.mtime < e.2 := by
+  have hl' : ¬ label ≥ s.prog.length := by omega
+  rw [hostCall_eq] at ho ⊢
+  simp only [hl', if_false] at ho ⊢
+  rw [callFinish_oof] at ho
+  rw [callFinish_timer]
+  exact sei_none_due 3998 (callSetup s label args) s.nextTid h.cur h.depth h.td ho
+
 /-- `wait ms` executed by thread `t`: its old timer entry (if any) is removed by `Stop()`, then the
     element `(t, scaledTime + ms)` is appended -/
 theorem exec_wait_timer (fuel : Nat) (s : State) (t : Nat) (th : Th) (ms : Nat) :
